@@ -114,6 +114,19 @@ func mutate(md *resource.Metadata, res resource.Resource, field string) {
 			t.Set("do", tag)
 			t.Delete("base")
 		})
+	case "labelDoDel":
+		// a transaction whose first effective step removes an existing key
+		md.Labels().Do(func(t kvutils.TempKV) {
+			t.Delete("missing")
+			t.Delete("base")
+			t.Set("do", tag)
+		})
+	case "annotationDo":
+		md.Annotations().Do(func(t kvutils.TempKV) {
+			t.Delete("base")
+			t.Set("a", tag)
+			t.Set("base", tag)
+		})
 	case "annotationSet":
 		md.Annotations().Set("a", tag)
 	case "annotationDelete":
